@@ -1,5 +1,6 @@
 import PeptVerif.Model.Score
 import PeptVerif.Spec.Score
+import PeptVerif.Model.ScoreFrag
 import Mathlib.Order.Defs.LinearOrder
 import Mathlib.Algebra.Order.Ring.Unbundled.Rat
 import Mathlib.Algebra.Order.Field.Rat
@@ -11,6 +12,9 @@ import Mathlib.Data.List.Nodup
 import Mathlib.Data.List.Perm.Lattice
 import Mathlib.Tactic.Linarith
 import Mathlib.Tactic.Ring
+import Mathlib.Data.Finset.Card
+import Mathlib.Data.List.Dedup
+import Mathlib.Data.Finset.Dedup
 /-! Helper lemmas for C17 (two-pointer sweep, windows on sorted lists, arg-best, intensity fraction). -/
 namespace Score
 variable {α : Type}
@@ -632,8 +636,8 @@ theorem labels_covAdd (n : Nat) (l x : Nat × String) (s e : Nat) (c : Cov) :
       tauto
 
 /-- processing a match of an already counted fragment changes nothing -/
-theorem matchCoverageGo_dup (n : Nat) (m : CovIn) (post : List CovIn) :
-    ∀ (pre : List CovIn) (seen : List Nat) (cov : Cov),
+theorem matchCoverageGo_dup {κ : Type} [DecidableEq κ] (n : Nat) (m : CovIn κ) (post : List (CovIn κ)) :
+    ∀ (pre : List (CovIn κ)) (seen : List κ) (cov : Cov),
       (m ∈ pre ∨ (m.key ∈ seen ∧ (m.charge, m.ion) ∈ cov.map (·.1))) →
       matchCoverageGo true n (pre ++ m :: post) seen cov = matchCoverageGo true n (pre ++ post) seen cov := by
   intro pre
@@ -669,8 +673,8 @@ theorem matchCoverageGo_dup (n : Nat) (m : CovIn) (post : List CovIn) :
         · exact Or.inr ⟨by simp [h1], (labels_covAdd _ _ _ _ _ _).mpr (Or.inr h2)⟩
 
 
-theorem matchCoverageGo_nodup (n : Nat) :
-    ∀ (ms : List CovIn) (seen seen' : List Nat) (cov : List ((Nat × String) × List Nat)),
+theorem matchCoverageGo_nodup {κ : Type} [DecidableEq κ] (n : Nat) :
+    ∀ (ms : List (CovIn κ)) (seen seen' : List κ) (cov : List ((Nat × String) × List Nat)),
       (∀ m ∈ ms, m.key ∉ seen) → (ms.map (·.key)).Nodup →
       matchCoverageGo true n ms seen cov = matchCoverageGo false n ms seen' cov := by
   intro ms
@@ -693,4 +697,218 @@ theorem matchCoverageGo_nodup (n : Nat) :
         exact hnd.1 (List.mem_map.mpr ⟨m, hm, e⟩)
       · exact hnd.2
 
+/-! ### coverage: the count of distinct fragments -/
+
+def rowsLen (n : Nat) (cov : Cov) : Prop := ∀ p ∈ cov, p.2.length = n
+
+theorem bump_length (s e : Nat) (l : List Nat) : (bump s e l).length = l.length := by simp [bump]
+
+theorem bump_get (s e : Nat) (l : List Nat) (i : Nat) :
+    (bump s e l)[i]? = l[i]?.map fun c => if s ≤ i ∧ i < e then c + 1 else c := by
+  simp [bump, List.getElem?_mapIdx]
+
+theorem rowsLen_covAdd (n : Nat) (l : Nat × String) (s e : Nat) (cov : Cov) (h : rowsLen n cov) :
+    rowsLen n (covAdd n l s e cov) := by
+  induction cov with
+  | nil => intro p hp; simp [covAdd] at hp; subst hp; simp [bump_length]
+  | cons q cov ih =>
+    obtain ⟨l', c⟩ := q
+    intro p hp
+    simp only [covAdd] at hp
+    split at hp
+    · rcases List.mem_cons.mp hp with rfl | hp
+      · simp only [bump_length]; exact h (l', c) (by simp)
+      · exact h p (by simp [hp])
+    · rcases List.mem_cons.mp hp with rfl | hp
+      · exact h (l', c) (by simp)
+      · exact ih (fun p hp => h p (by simp [hp])) p hp
+
+theorem rowsLen_covTouch (n : Nat) (l : Nat × String) (cov : Cov) (h : rowsLen n cov) :
+    rowsLen n (covTouch n l cov) := by
+  induction cov with
+  | nil => intro p hp; simp [covTouch] at hp; subst hp; simp
+  | cons q cov ih =>
+    obtain ⟨l', c⟩ := q
+    intro p hp
+    simp only [covTouch] at hp
+    split at hp
+    · exact h p hp
+    · rcases List.mem_cons.mp hp with rfl | hp
+      · exact h (l', c) (by simp)
+      · exact ih (fun p hp => h p (by simp [hp])) p hp
+
+theorem rowVal_covTouch (n : Nat) (l l0 : Nat × String) (cov : Cov) (i : Nat) :
+    rowVal (covTouch n l cov) l0 i = rowVal cov l0 i := by
+  induction cov with
+  | nil =>
+    simp only [covTouch, rowVal, List.lookup]
+    by_cases h : l0 = l
+    · subst h; simp [List.getElem?_replicate]; split <;> rfl
+    · have : (l0 == l) = false := by simpa using h
+      simp [this]
+  | cons q cov ih =>
+    obtain ⟨l', c⟩ := q
+    simp only [covTouch]
+    split
+    · rfl
+    · simp only [rowVal, List.lookup] at ih ⊢
+      split
+      · rfl
+      · exact ih
+
+theorem rowVal_covAdd (n : Nat) (l l0 : Nat × String) (s e : Nat) (cov : Cov) (i : Nat) (hi : i < n)
+    (h : rowsLen n cov) :
+    rowVal (covAdd n l s e cov) l0 i = rowVal cov l0 i + (if l = l0 ∧ s ≤ i ∧ i < e then 1 else 0) := by
+  induction cov with
+  | nil =>
+    simp only [covAdd, rowVal, List.lookup]
+    by_cases hl : l0 = l
+    · subst hl
+      simp only [beq_self_eq_true, Option.bind_some, bump_get, List.getElem?_replicate, hi, if_true, Option.map_some,
+        true_and, Option.bind_none, Option.getD_none, Nat.zero_add, Option.getD_some]
+    · have : (l0 == l) = false := by simpa using hl
+      have hl' : ¬ l = l0 := fun e => hl e.symm
+      simp [this, hl']
+  | cons q cov ih =>
+    obtain ⟨l', c⟩ := q
+    have hc : c.length = n := h (l', c) (by simp)
+    have ih' := ih (fun p hp => h p (by simp [hp]))
+    simp only [covAdd]
+    by_cases hl : l' = l
+    · subst hl
+      simp only [beq_self_eq_true, if_true, rowVal, List.lookup]
+      by_cases h0 : l0 = l'
+      · subst h0
+        have hci : c[i]? = some c[i] := List.getElem?_eq_getElem (by omega)
+        simp only [beq_self_eq_true, Option.bind_some, bump_get, hci, Option.map_some, Option.getD_some, true_and]
+        split <;> rfl
+      · have : (l0 == l') = false := by simpa using h0
+        have hl' : ¬ l' = l0 := fun e => h0 e.symm
+        simp [this, hl']
+    · have hb : (l' == l) = false := by simpa using hl
+      simp only [hb, Bool.false_eq_true, if_false]
+      simp only [rowVal, List.lookup] at ih' ⊢
+      by_cases h0 : l0 = l'
+      · subst h0
+        have : ¬ l = l0 := fun e => hl e.symm
+        simp [this]
+      · have : (l0 == l') = false := by simpa using h0
+        simp only [this]
+        exact ih'
+
+section
+variable {κ : Type} [DecidableEq κ]
+
+/-- the fragments (keys) not seen before that cover position `i` under label `l` -/
+def newKeys (l : Nat × String) (i : Nat) (seen : List κ) (ms : List (CovIn κ)) : Finset κ :=
+  ((ms.filter fun m => decide (m.key ∉ seen ∧ hits l i m)).map (·.key)).toFinset
+
+theorem matchCoverageGo_count (n : Nat) (l : Nat × String) (i : Nat) (hi : i < n) :
+    ∀ (ms : List (CovIn κ)) (seen : List κ) (cov cov' : Cov),
+      (∀ m ∈ ms, ∀ m' ∈ ms, m.key = m'.key → m = m') → rowsLen n cov →
+      matchCoverageGo true n ms seen cov = .ok cov' →
+      rowVal cov' l i = rowVal cov l i + (newKeys l i seen ms).card := by
+  intro ms
+  induction ms with
+  | nil =>
+    intro seen cov cov' _ _ h
+    simp only [matchCoverageGo, Except.ok.injEq] at h
+    subst h; simp [newKeys]
+  | cons m ms ih =>
+    intro seen cov cov' hf hr h
+    have hf' : ∀ a ∈ ms, ∀ b ∈ ms, a.key = b.key → a = b := fun a ha b hb => hf a (by simp [ha]) b (by simp [hb])
+    simp only [matchCoverageGo] at h
+    by_cases hs : m.key ∈ seen
+    · have hc : seen.contains m.key = true := by simpa using hs
+      simp only [hc, Bool.and_self, if_true] at h
+      rw [ih seen _ cov' hf' (rowsLen_covTouch n _ cov hr) h, rowVal_covTouch]
+      congr 2
+      unfold newKeys
+      simp [List.filter_cons, hs]
+    · have hc : seen.contains m.key = false := by simpa using hs
+      simp only [hc, Bool.and_false, Bool.false_eq_true, if_false] at h
+      split at h
+      · cases h
+      · rw [ih (m.key :: seen) _ cov' hf' (rowsLen_covAdd n _ _ _ cov hr) h, rowVal_covAdd n _ l _ _ cov i hi hr]
+        have hsame : ∀ a ∈ ms, a.key = m.key → a = m := fun a ha e => hf a (by simp [ha]) m (by simp) e
+        by_cases hq : hits l i m
+        · have hq' : (m.charge, m.ion) = l ∧ m.start ≤ i ∧ i < m.stop := hq
+          rw [if_pos hq']
+          have e1 : newKeys l i seen (m :: ms) = insert m.key (newKeys l i (m.key :: seen) ms) := by
+            unfold newKeys
+            ext k
+            simp only [List.filter_cons, hs, not_false_eq_true, hq, and_self, decide_true, if_true, List.map_cons,
+              List.toFinset_cons, Finset.mem_insert, List.mem_toFinset, List.mem_map, List.mem_filter,
+              decide_eq_true_eq, List.mem_cons, not_or]
+            constructor
+            · rintro (rfl | ⟨a, ⟨ha, hns, hqa⟩, rfl⟩)
+              · exact Or.inl rfl
+              · by_cases hk : a.key = m.key
+                · exact Or.inl hk
+                · exact Or.inr ⟨a, ⟨ha, ⟨hk, hns⟩, hqa⟩, rfl⟩
+            · rintro (rfl | ⟨a, ⟨ha, ⟨_, hns⟩, hqa⟩, rfl⟩)
+              · exact Or.inl rfl
+              · exact Or.inr ⟨a, ⟨ha, hns, hqa⟩, rfl⟩
+          have e2 : m.key ∉ newKeys l i (m.key :: seen) ms := by
+            unfold newKeys
+            simp only [List.mem_toFinset, List.mem_map, List.mem_filter, decide_eq_true_eq, List.mem_cons, not_or,
+              not_exists, not_and]
+            intro a ⟨_, ⟨hk, _⟩, _⟩ e
+            exact hk e
+          rw [e1, Finset.card_insert_of_notMem e2]
+          omega
+        · have hq' : ¬ ((m.charge, m.ion) = l ∧ m.start ≤ i ∧ i < m.stop) := hq
+          rw [if_neg hq']
+          have e1 : newKeys l i seen (m :: ms) = newKeys l i (m.key :: seen) ms := by
+            unfold newKeys
+            ext k
+            simp only [List.filter_cons, hq, and_false, decide_false, Bool.false_eq_true, if_false,
+              List.mem_toFinset, List.mem_map, List.mem_filter, decide_eq_true_eq, List.mem_cons, not_or]
+            constructor
+            · rintro ⟨a, ⟨ha, hns, hqa⟩, rfl⟩
+              refine ⟨a, ⟨ha, ⟨?_, hns⟩, hqa⟩, rfl⟩
+              intro e
+              rw [hsame a ha e] at hqa
+              exact hq hqa
+            · rintro ⟨a, ⟨ha, ⟨_, hns⟩, hqa⟩, rfl⟩
+              exact ⟨a, ⟨ha, hns, hqa⟩, rfl⟩
+          rw [e1]; omega
+end
+/-! ### `FragmentMatch` records -/
+section
+open Fragment (Frag Ion)
+theorem covInOf_inj (m m' : FragMatch) (h : (covInOf m).key = (covInOf m').key) : covInOf m = covInOf m' := by
+  unfold covInOf at *
+  simp only [covKey, CovKey.mk.injEq] at h
+  obtain ⟨h1, h2, h3, h4, _, _, _, _⟩ := h
+  simp only [covKey, h1, h2, h3, h4, CovIn.mk.injEq, and_self, and_true, CovKey.mk.injEq]
+  simp_all
+
+theorem mem_range_zip {γ : Type} (l : List γ) (j : Nat) (x : γ) :
+    (j, x) ∈ (List.range l.length).zip l ↔ l[j]? = some x := by
+  induction l using List.reverseRecOn with
+  | nil => simp
+  | append_singleton l a ih =>
+    rw [List.length_append, List.length_singleton, List.range_succ, List.zip_append (by simp)]
+    simp only [List.zip_cons_cons, List.zip_nil_right, List.mem_append, List.mem_singleton, Prod.mk.injEq, ih]
+    constructor
+    · rintro (h | ⟨rfl, rfl⟩)
+      · rw [List.getElem?_append_left]; exact h
+        exact (List.getElem?_eq_some_iff.mp h).1
+      · simp
+    · intro h
+      by_cases hj : j < l.length
+      · left; rw [List.getElem?_append_left hj] at h; exact h
+      · right
+        rw [List.getElem?_append_right (by omega)] at h
+        have : j - l.length = 0 := by
+          by_contra hne
+          have : (([a] : List γ)[j - l.length]?) = none := by
+            rw [List.getElem?_eq_none_iff]; simp; omega
+          rw [this] at h; cases h
+        rw [this] at h
+        simp at h
+        exact ⟨by omega, h.symm⟩
+
+end
 end Score
